@@ -51,6 +51,9 @@ def op_table(F):
     return None, cl
 
 
+IC = "ide::ty::infer::InferCtx::"
+
+
 def arms(F):
     """BinaryOpKind variant -> (types unified via unify_var_ty, operands unified?, result)"""
     fn = F.fn("ide::ty::infer::InferCtx::infer_expr_inner")
@@ -83,39 +86,128 @@ def arms(F):
         reach[tgt] = seen
     common = set.intersection(*reach.values()) if len(reach) > 1 else set()
     out = {}
+
+    def defs_in(region):
+        ls = {}
+        for bb in region:
+            for s_ in fn.blocks[bb]["stmts"]:
+                if s_["k"] == "assign" and not s_["place"]["p"]:
+                    ls.setdefault(s_["place"]["l"], []).append(("assign", bb, s_))
+            tt = fn.term(bb)
+            if tt["k"] == "call" and not tt["dest"]["p"]:
+                ls.setdefault(tt["dest"]["l"], []).append(("call", bb, tt))
+        return ls
+    per_arm = {tgt: defs_in(reach[tgt] - common) for tgt in set(tgts.values())}
+    # the match's result local: assigned in every arm
+    result_locals = set.intersection(*[set(x) for x in per_arm.values()]) if per_arm else set()
     for v, tgt in tgts.items():
         region = reach[tgt] - common
-        tys, operands, bool_vars, results = [], False, [], []
+        S = Summ(F)
+        eff = S.region(fn, region, {}, 0)
+        results = set()
+        dd = S.defs(fn)
+        for rl in result_locals:
+            for kind_, bb, x in per_arm[tgt].get(rl, []):
+                if kind_ == "assign":
+                    if x["rv"]["k"] == "use":
+                        results.add(S.sym(fn, dd, x["rv"]["op"], {}, 0))
+                    else:
+                        results.add(("?",))
+                else:
+                    results.add(S.sym_o(fn, dd, {"k": "call", "t": x, "bb": bb}, {}, 0))
+        exprs = {x for pair in eff["unify"] for x in pair if x[0] == "expr"} | {x for x, _ in eff["unify_ty"] if x[0] == "expr"}
+        tys = [(ty, "operand" if x[0] == "expr" else "fresh" if x[0] == "fresh" else "?") for x, ty in sorted(eff["unify_ty"], key=repr)]
+        operands = any(a[0] == "expr" and b_[0] == "expr" and a != b_ for a, b_ in eff["unify"])
+        out[v] = {"tys": tys, "operands_unified": operands,
+                  "results": sorted({"operand" if r[0] == "expr" else "fresh" for r in results}), "explicit": v in listed,
+                  "fresh_bool": any(x[0] == "fresh" and ty == "Bool" and x in results for x, ty in eff["unify_ty"])}
+    return out, fn
+
+
+class Summ:
+    """Symbolic effect of MIR regions on type variables, with InferCtx helper methods inlined (depth <= 3)."""
+
+    def __init__(self, F):
+        self.F = F
+        self._defs = {}
+        self.memo = {}
+
+    def defs(self, fn):
+        d = self._defs.get(fn.path)
+        if d is None:
+            d = self._defs[fn.path] = FL.Defs(fn)
+        return d
+
+    def sym(self, fn, d, op, bind, depth):
+        return self.sym_o(fn, d, d.origin_op(op), bind, depth)
+
+    def sym_o(self, fn, d, o, bind, depth):
+        k = o.get("k")
+        if k == "arg":
+            return bind.get(o["n"], ("?",))
+        if k == "agg" and (o["rv"].get("adt") or "").endswith("::Ty"):
+            return ("ty", o["rv"]["variant"])
+        if k == "call":
+            c = callee(o["t"]) or ""
+            if c.endswith("::infer_expr") or c.endswith("::infer_expr_inner"):
+                return ("expr", fn.path, o["bb"])
+            if c.endswith("::new_ty_var"):
+                return ("fresh", fn.path, o["bb"], tuple(sorted(bind.items(), key=repr)))
+            if c.startswith(IC) and depth < 3:
+                sub = self.inline(fn, d, o["t"], bind, depth)
+                if sub and len(sub["ret"]) == 1:
+                    return next(iter(sub["ret"]))
+        return ("?",)
+
+    def inline(self, fn, d, t, bind, depth):
+        c = callee(t)
+        g = self.F.fns.get(c)
+        if g is None or not g.blocks:
+            return None
+        b2 = {i + 1: self.sym(fn, d, a, bind, depth) for i, a in enumerate(t["args"])}
+        key = (c, tuple(sorted(b2.items(), key=repr)))
+        if key in self.memo:
+            return self.memo[key]
+        self.memo[key] = None
+        eff = self.region(g, set(g.reachable()), b2, depth + 1)
+        dg = self.defs(g)
+        ret = set()
+        for l_, ds in dg.defs.items():
+            pass
+        o = dg.origin(0)
+        cands = [o] if o.get("k") != "multi" else []
+        if o.get("k") == "multi":
+            for dd in o["defs"]:
+                if dd[2] == "call":
+                    cands.append({"k": "call", "t": dd[3], "bb": dd[0]})
+                else:
+                    cands.append(dg.origin_rv(dd[3]["rv"], 0, dd[0], 0, ()))
+        for oc in cands:
+            ret.add(self.sym_o(g, dg, oc, b2, depth + 1))
+        eff = dict(eff, ret=ret)
+        self.memo[key] = eff
+        return eff
+
+    def region(self, fn, region, bind, depth):
+        d = self.defs(fn)
+        eff = {"unify_ty": set(), "unify": set()}
         for bb in sorted(region):
             tt = fn.term(bb)
             if tt["k"] != "call":
                 continue
-            c = callee(tt)
-            if c == "ide::ty::infer::InferCtx::unify_var_ty":
-                o = d.origin_op(tt["args"][2])
-                ty = o["rv"]["variant"] if o.get("k") == "agg" else None
-                who = d.origin_op(tt["args"][1])
-                who_k = "operand" if (who.get("k") == "call" and (callee(who["t"]) or "").endswith("infer_expr")) else \
-                    ("fresh" if who.get("k") == "call" and (callee(who["t"]) or "").endswith("new_ty_var") else "?")
-                tys.append((ty, who_k))
-            if c == "ide::ty::infer::InferCtx::unify_var":
-                a = d.origin_op(tt["args"][1])
-                bq = d.origin_op(tt["args"][2])
-                if all(x.get("k") == "call" and (callee(x["t"]) or "").endswith("infer_expr") for x in (a, bq)) and a.get("bb") != bq.get("bb"):
-                    operands = True
-        # what does the arm evaluate to? the value stored into the match's result local
-        for bb in sorted(region):
-            for s in fn.blocks[bb]["stmts"]:
-                if s["k"] == "assign" and not s["place"]["p"] and s["rv"]["k"] == "use":
-                    o = d.origin_op(s["rv"]["op"])
-                    if o.get("k") == "call":
-                        cc = callee(o["t"]) or ""
-                        if cc.endswith("new_ty_var"):
-                            results.append("fresh")
-                        elif cc.endswith("infer_expr"):
-                            results.append("operand")
-        out[v] = {"tys": tys, "operands_unified": operands, "results": results, "explicit": v in listed}
-    return out, fn
+            c = callee(tt) or ""
+            if c == IC + "unify_var_ty":
+                ty = self.sym(fn, d, tt["args"][2], bind, depth)
+                if ty[0] == "ty":
+                    eff["unify_ty"].add((self.sym(fn, d, tt["args"][1], bind, depth), ty[1]))
+            elif c == IC + "unify_var":
+                eff["unify"].add((self.sym(fn, d, tt["args"][1], bind, depth), self.sym(fn, d, tt["args"][2], bind, depth)))
+            elif c.startswith(IC) and not c.endswith(("::infer_expr", "::infer_expr_inner", "::new_ty_var")) and depth < 3:
+                sub = self.inline(fn, d, tt, bind, depth)
+                if sub:
+                    eff["unify_ty"] |= sub["unify_ty"]
+                    eff["unify"] |= sub["unify"]
+        return eff
 
 
 def run(F, res, tier):
